@@ -127,7 +127,7 @@ class Splitter:
                 raise BlockAbortedException(
                     abort_reason=f"Unexpected block start: `{m.group(0)}`. "
                     f"Was still looking for closing bracket",
-                    end_index=m.start() - 1,
+                    end_index=m.start(),
                 )
 
     def _move_to_comma_or_closing_curly_bracket(
@@ -183,7 +183,7 @@ class Splitter:
                 raise BlockAbortedException(
                     abort_reason=f"Unexpected block start: `{next_mark.group(0)}`. "
                     f"Was still looking for field-value closing {looking_for} ",
-                    end_index=next_mark.start() - 1,
+                    end_index=next_mark.start(),
                 )
 
     def _move_to_end_of_entry(self, first_key_start: int) -> Tuple[List[Field], int, Set[str]]:
@@ -317,7 +317,12 @@ class Splitter:
                     )
                     raise e
 
-                self._reset_block_status(current_char_index=self._current_char_index + 1)
+                if self._unaccepted_mark is not None:
+                    # A failed block ended at a mark that is yet to be processed:
+                    #   everything from there on is not part of the failed block.
+                    self._reset_block_status(current_char_index=self._unaccepted_mark.start())
+                else:
+                    self._reset_block_status(current_char_index=self._current_char_index + 1)
             else:
                 # Part of implicit comment
                 continue
@@ -374,7 +379,7 @@ class Splitter:
             self._unaccepted_mark = comma_mark
             raise BlockAbortedException(
                 abort_reason=f"Expected comma after entry key, but found {comma_mark.group(0)}",
-                end_index=comma_mark.end(),
+                end_index=comma_mark.start(),
             )
         else:
             self._open_brackets += 1
@@ -414,7 +419,7 @@ class Splitter:
             raise BlockAbortedException(
                 abort_reason="Expected equals sign after field key,"
                 f" but found {equals_mark.group(0)}",
-                end_index=equals_mark.end(),
+                end_index=equals_mark.start(),
             )
         key = self.bibstr[m.end() + 1 : equals_mark.start()].strip()
         value_start = equals_mark.end()
